@@ -142,6 +142,9 @@ func vtlRun(idx int, cs vtlCase) map[string]any {
 	switch cs.Site {
 	case "relay.Read":
 		client.script["Read"] = []vrlOut{{2, "nil", ""}, f}
+	case "relay.ReadFull":
+		// the Read fills the relay's 32 KiB buffer completely and fails in the same call
+		client.script["Read"] = []vrlOut{{32 * 1024, cs.K, cs.W}}
 	case "relay.Write":
 		client.script["Write"] = []vrlOut{f}
 	case "relay.CloseDst":
